@@ -13,6 +13,9 @@ Tie, on every run and against the object code of /repo's current tree:
           whose info file carries the argspec; the real `uftrace replay` (read_task_args +
           get_argspec_string) prints it, the real `uftrace dump` prints the raw values;
   parser  the spec strings go through the real parse_argspec (harness/c/c09_harness.c);
+  trigger  "T" groups of a case are trigger actions (UFTRACE_TRIGGER; libmcount applies -T, -A, -R in this order);
+          the argspec / retspec lines of the synthetic info file are then produced by the real
+          extract_trigger_args (c09_harness, "X" lines), as `uftrace record` does;
   abandoned  calls marked "abandoned" are closed without a return value: the same harness with
           UFTRACE_ESTIMATE_RETURN (libmcount closes the open call at the next entry through
           mcount_exit_filter_record(.., NULL), the path of exception unwinding and pthread_exit);
@@ -113,7 +116,8 @@ def str_bytes(c, a):
 
 
 def groups_of(c):
-    """the -A / -R options of a case in the order they are given: [{"opt": "A"|"R", "regex": bool, "specs": [...]}]"""
+    """the -A / -R / -T options of a case in the order they are given: [{"opt": "A"|"R"|"T", "regex": bool, "specs": [...]}]
+    (a "T" group is one trigger action: it may carry argument and return value specs, in any order)"""
     if "groups" in c:
         return c["groups"]
     g = []
@@ -290,7 +294,60 @@ class Gen:
         finish_slots(c)
         if profile == "multi" or r.random() < 0.15:
             self.multi()
+        if r.random() < (0.45 if profile == "multi" else 0.25):
+            self.trigger_split()
         return c
+
+    def trigger_split(self):
+        """some of the specs reach the function through -T (trigger actions) instead of -A / -R: a whole option, its
+        first or last specs, or single specs; an action may carry argument and return value specs side by side.
+        libmcount applies -T first, then -A, then -R (so the merged list, which SPECS reads back, changes its order);
+        the readers get the specs through extract_trigger_args and the argspec / retspec lines of the info file"""
+        r = self.rng
+        c = self._c
+        out = []
+        for g in [dict(g_) for g_ in groups_of(c)]:
+            sp = list(g["specs"])
+            how = r.choice(["keep", "all", "head", "tail", "some"])
+            if how == "keep" or not sp:
+                out.append(g)
+                continue
+            if how == "all" or len(sp) == 1:
+                t, rest = sp, []
+            elif how == "head":
+                k = r.randrange(1, len(sp))
+                t, rest = sp[:k], sp[k:]
+            elif how == "tail":
+                k = r.randrange(1, len(sp))
+                t, rest = sp[k:], sp[:k]
+            else:
+                pick = [r.random() < 0.5 for _ in sp]
+                t, rest = [x for x, b in zip(sp, pick) if b], [x for x, b in zip(sp, pick) if not b]
+            if t:
+                out.append({"opt": "T", "regex": g.get("regex", False), "specs": t})
+                c["tags"].append("trigger=%s-of-%s" % (how if rest else "all", g["opt"]))
+            if rest:
+                out.append(dict(g, specs=rest))
+        # two actions of the same kind of pattern become one action with argument and return value specs mixed
+        ts = [g for g in out if g["opt"] == "T"]
+        if len(ts) >= 2 and r.random() < 0.5:
+            a, b = r.sample(ts, 2)
+            if bool(a.get("regex")) == bool(b.get("regex")):
+                merged = a["specs"] + b["specs"]
+                if r.random() < 0.5:
+                    r.shuffle(merged)
+                a["specs"] = merged
+                out = [g for g in out if g is not b]
+                c["tags"].append("trigger=mixed-action")
+        if not any(g["opt"] == "T" for g in out):
+            return
+        r.shuffle(out) if r.random() < 0.3 else None
+        c["groups"] = out
+        c["tags"].append("trigger")
+        # informational: the specs per direction in the order libmcount applies the options
+        flat = [x for o in "TAR" for g in out if g["opt"] == o for x in g["specs"]]
+        c["specs"] = [x for x in flat if not x.startswith("retval")]
+        c["rspecs"] = [x for x in flat if x.startswith("retval")]
 
     def multi(self):
         """several specs on one function: more than one -A / -R option (exact name and regex) matching it, specs that
@@ -777,8 +834,52 @@ def abandoned_retonly():
             "tags": ["abandoned", "regression=abandoned-retonly"], "abandoned": True}
 
 
-REGRESSIONS = [witness_len98, witness_c64, witness_overflow, witness_overflow_many, abandoned_check, abandoned_str,
-               abandoned_retonly]
+def trigger_lookup():
+    # seed C09-8: -T 'lookup@arg1/i32' -A 'lookup@arg2/s,arg3/i64' for lookup(7, "seven", -3)
+    return {"specs": ["arg1/i32", "arg2/s", "arg3/i64"], "rspecs": [], "regs": [7, "@S0", M64 - 2, 0, 0, 0], "stack": [],
+            "ret": [0, 0], "strings": {0: b"seven".hex()}, "objs": {},
+            "groups": [{"opt": "T", "regex": False, "specs": ["arg1/i32"]},
+                       {"opt": "A", "regex": False, "specs": ["arg2/s", "arg3/i64"]}],
+            "actual": [["int", 7, ["reg", 0]], ["str", 0], ["int", M64 - 2, ["reg", 2]]], "ractual": [],
+            "tags": ["trigger", "regression=trigger-lookup"]}
+
+
+def trigger_override():
+    # -A first on the command line, its arg2/x64 replaces the format of the trigger's arg2/s (the trigger is applied first)
+    return {"specs": ["arg2/s", "arg1/i32", "arg2/x64"], "rspecs": ["retval/i64"], "regs": [300, "@S0", 5, 0, 0, 0], "stack": [],
+            "ret": [123456789, 0], "strings": {0: b"three-hundred".hex()}, "objs": {},
+            "groups": [{"opt": "A", "regex": False, "specs": ["arg1/i32", "arg2/x64"]},
+                       {"opt": "T", "regex": False, "specs": ["retval/i64", "arg2/s"]}],
+            "actual": [["int", "@S0", ["reg", 1]], ["int", 300, ["reg", 0]]], "ractual": [["int", 123456789, ["ret", 0]]],
+            "tags": ["trigger", "regression=trigger-override"]}
+
+
+def trigger_retval_str():
+    # repaired (fix: trigger-retval-format): -T 'f@retval/s' with a string whose payload is not 8 bytes
+    return {"specs": ["arg1/i32"], "rspecs": ["retval/s"], "regs": [7, 0, 0, 0, 0, 0], "stack": [],
+            "ret": ["@S0", 0], "strings": {0: b"a return value of twenty-nine".hex()}, "objs": {},
+            "groups": [{"opt": "T", "regex": False, "specs": ["retval/s", "arg1/i32"]}],
+            "actual": [["int", 7, ["reg", 0]]], "ractual": [["str", 0]],
+            "tags": ["trigger", "regression=trigger-retval-format"]}
+
+
+def trigger_retval_f64():
+    return {"specs": [], "rspecs": ["retval/f64"], "regs": [7, 0, 0, 0, 0, 0], "stack": [], "ret": [5, 0],
+            "xmm0": 0x4004000000000000, "strings": {}, "objs": {},
+            "groups": [{"opt": "T", "regex": True, "specs": ["retval/f64"]}],
+            "actual": [], "ractual": [["flt", 0x4004000000000000]],
+            "tags": ["trigger", "regression=trigger-retval-format"]}
+
+
+def empty_payload():
+    # repaired (fix: empty-payload-memcpy): the only return value spec is a struct of size 0 - `more` with no bytes;
+    # the readers of the ASan/UBSan build run on the batch of this case (thorough tier)
+    return {"specs": [], "rspecs": ["retval/t0"], "regs": [1, 2, 3, 4, 5, 6], "stack": [], "ret": [7, 0], "strings": {},
+            "objs": {}, "actual": [], "ractual": [["struct"]], "tags": ["asan", "regression=empty-payload-memcpy"]}
+
+
+REGRESSIONS = [empty_payload, witness_len98, witness_c64, witness_overflow, witness_overflow_many, abandoned_check, abandoned_str,
+               abandoned_retonly, trigger_lookup, trigger_override, trigger_retval_str, trigger_retval_f64]
 # still present, listed in known-findings.txt: the generators stay out of the class, this is the witness
 WITNESSES = [("auto-neg32", witness_neg32)]
 
@@ -911,6 +1012,16 @@ class Impl:
                                           "name": "" if k[11] == "-" else k[11]}
         return [self.spec_cache[s] for s in strings]
 
+    def info_lines(self, astr, rstr, tstr):
+        """the argspec / retspec lines `uftrace record` writes for these -A / -R / -T option strings: the real
+        extract_trigger_args (cmds/info.c fill_arg_spec)"""
+        p = subprocess.run([self.parse_exe], input="X\t%s\t%s\t%s\n" % (astr, rstr, tstr), capture_output=True, text=True,
+                           timeout=60)
+        k = p.stdout.rstrip("\n").split("\t")
+        if p.returncode != 0 or len(k) != 3 or k[0] != "X":
+            raise RuntimeError("c09_harness (extract_trigger_args) failed: rc=%s %r %s" % (p.returncode, p.stdout[-300:], p.stderr[-300:]))
+        return k[1], k[2]
+
     # ---- one harness run + one synthetic data directory for up to 31 cases
     def run_batch(self, cases):
         """fills case["obs"] (implementation's observations) and case["env"] (resolved addresses)"""
@@ -930,7 +1041,7 @@ class Impl:
             expect = ["E", "E", "X", "X", "ADDR"]
         nent = 3                                # entries so far in the abandoned script (= index of the next fake frame)
         sbase = 0
-        argenv, retenv = [], []
+        argenv, retenv, trigenv = [], [], []
         for ci, c in enumerate(cases):
             k = ci + 1
             c["k"] = k
@@ -956,7 +1067,7 @@ class Impl:
                 expect.append("SADDR")
             sbase += nobj
             for g in groups_of(c):
-                (argenv if g["opt"] == "A" else retenv).append(
+                {"A": argenv, "R": retenv, "T": trigenv}[g["opt"]].append(
                     ("^(f%d)$@%s" if g.get("regex") else "f%d@%s") % (k, ",".join(g["specs"])))
             lines.append("SPECS %d" % k)
             expect.append("SPECS")
@@ -998,6 +1109,8 @@ class Impl:
             env["UFTRACE_ARGUMENT"] = ";".join(argenv)
         if retenv:
             env["UFTRACE_RETVAL"] = ";".join(retenv)
+        if trigenv:
+            env["UFTRACE_TRIGGER"] = ";".join(trigenv)
         out, err = self.h.run(lines, env, timeout=120)
         if len(out) != len(expect) or any(not o.startswith(e) for o, e in zip(out, expect)):
             raise RuntimeError("mc_harness output out of step: %r ... stderr=%s" % (out[:8], err[-400:]))
@@ -1073,10 +1186,14 @@ class Impl:
         shutil.rmtree(d, ignore_errors=True)
         desc = {"syms": syms, "base": base, "tasks": [{"tid": 100, "pid": 100, "raw": raw}], "args": True,
                 "cpuinfo": "Intel(R) Xeon(R) Processor @ 2.10GHz"}
-        aspec = ";".join(("^(fn%02d)$@%s" if g.get("regex") else "fn%02d@%s") % (c["k"], ",".join(g["specs"]))
-                         for c in cases for g in groups_of(c) if g["opt"] == "A")
-        rspec = ";".join(("^(fn%02d)$@%s" if g.get("regex") else "fn%02d@%s") % (c["k"], ",".join(g["specs"]))
-                         for c in cases for g in groups_of(c) if g["opt"] == "R")
+        def optstr(o):
+            return ";".join(("^(fn%02d)$@%s" if g.get("regex") else "fn%02d@%s") % (c["k"], ",".join(g["specs"]))
+                            for c in cases for g in groups_of(c) if g["opt"] == o)
+        aspec, rspec = optstr("A"), optstr("R")
+        if optstr("T"):
+            # the lines of the info file as `uftrace record -A .. -R .. -T ..` writes them
+            aspec, rspec = self.info_lines(aspec, rspec, optstr("T"))
+        self.last_info = (aspec, rspec)
         desc["pattern_type"] = "regex"
         datadir.write(desc, d, argspec={"argspec": aspec, "retspec": rspec})
         exe = os.path.join(self.objdir, "uftrace")
@@ -1139,7 +1256,7 @@ class Impl:
             self.script_ok[lang] = self.parse_script(cases, lang, p)
         # memory safety of the readers (thorough tier, every 4th stream): ASan + UBSan build of the current tree
         self.asan_report = None
-        if self.ctx.thorough() and self.nrun % 6 == 0:
+        if self.ctx.thorough() and (self.nrun % 6 == 0 or any("asan" in c["tags"] for c in cases)):
             asan = build.get_build("asan", self.ctx.log)
             for cmd in (["replay", "-f", "none"], ["dump"], ["script", "-S", os.path.join(self.ctx.scratch, "c09log.py")]):
                 q = subprocess.run(["timeout", "120", os.path.join(asan, "uftrace")] + cmd + ["--no-pager", "-d", d],
@@ -1369,7 +1486,8 @@ def evaluate(ctx, batches, name="cases"):
         tabs = []
         for c in cases:
             gs = groups_of(c)
-            opts = [g for g in gs if g["opt"] == "A"] + [g for g in gs if g["opt"] == "R"]
+            # libmcount: uftrace_setup_trigger, then _argument, then _retval
+            opts = [g for o in "TAR" for g in gs if g["opt"] == o]
             tabs.append("([%s], [%s])" % (
                 "; ".join("(%s, [%s])" % (coq.coq_bool(not g.get("regex")), "; ".join(coq_spec(x) for x in c["gparsed"][id(g)]))
                           for g in opts),
@@ -2054,6 +2172,137 @@ def e2e_abandoned(ctx, impl):
                                                  "record_options": opts}, True)
 
 
+E2E_TRIG_PROG = r"""// specs of one function given partly by -T (trigger actions) and partly by -A / -R
+#include <stdio.h>
+static const char *const names[] = { "seven", "three-hundred", "a name of twenty-six bytes" };
+__attribute__((noinline)) long lookup(int id, const char *name, long delta) { asm volatile("" ::: "memory"); return id + delta; }
+__attribute__((noinline)) const char *name_of(int k) { asm volatile("" ::: "memory"); return names[k]; }
+__attribute__((noinline)) double half(int n) { asm volatile("" ::: "memory"); return n / 2.0; }
+__attribute__((noinline)) long after(long a, long b) { asm volatile("" ::: "memory"); return a + b; }
+int main(void)
+{
+	long sum = 0;
+	printf("PTR %p %p %p\n", (void *)names[0], (void *)names[1], (void *)names[2]);
+	sum += lookup(7, names[0], -3);
+	sum += after(11, 13);
+	sum += lookup(300, names[1], 123456789);
+	sum += name_of(2)[0];
+	sum += (long)half(5);
+	sum += after(17, 19);
+	sum += name_of(0)[0];
+	sum += (long)half(-9);
+	printf("sum %ld\n", sum);
+	return 0;
+}
+"""
+E2E_TRIG_NAMES = ["seven", "three-hundred", "a name of twenty-six bytes"]
+# (function, argument values, return value) in call order; a string argument is an index into the names
+E2E_TRIG_CALLS = [("lookup", [7, ("s", 0), -3], 4), ("after", [11, 13], 24), ("lookup", [300, ("s", 1), 123456789], 123457089),
+                  ("name_of", [2], ("s", 2)), ("half", [5], ("f", "2.500000")), ("after", [17, 19], 36),
+                  ("name_of", [0], ("s", 0)), ("half", [-9], ("f", "-4.500000"))]
+# the formats each parameter / return value may be given (the first is the natural one)
+E2E_TRIG_FMTS = {"lookup": [["i32", "x32"], ["s", "x64"], ["i64", "x64"], ["i64", "x64"]], "after": [["i64"], ["i64", "x64"], ["i64"]],
+                 "name_of": [["i32"], ["s", "x64"]], "half": [["i32", "x32"], ["f64"]]}
+
+
+def e2e_trigger_split(ctx, impl):
+    """the specs of a function split at random between -T actions and -A / -R options (also the same argument
+    twice, the later option replacing the format), on a compiled program: replay must show every call with the values
+    passed, in the order libmcount laid them out (-T, then -A, then -R; first mention fixes the position, last
+    mention the format), and dump must read to the end"""
+    r = ctx.rng
+    d = os.path.join(ctx.scratch, "e2e-trigger")
+    shutil.rmtree(d, ignore_errors=True)
+    os.makedirs(d)
+    open(os.path.join(d, "t.c"), "w").write(E2E_TRIG_PROG)
+    exe = os.path.join(d, "t")
+    q = subprocess.run(["gcc", "-pg", "-g", "-O0", "-o", exe, os.path.join(d, "t.c")], capture_output=True, text=True, timeout=120)
+    if q.returncode != 0:
+        raise RuntimeError("trigger-split program does not compile: " + q.stderr[-800:])
+    uft = os.path.join(impl.objdir, "uftrace")
+
+    def fmt_val(v, f, ptrs):
+        if isinstance(v, tuple) and v[0] == "s":
+            return '"%s"' % E2E_TRIG_NAMES[v[1]] if f == "s" else "%#x" % ptrs[v[1]]
+        if isinstance(v, tuple):
+            return v[1]
+        bits = 64 if f.endswith("64") else 32
+        return str(v) if f[0] == "i" else ("%#x" % (v % (1 << bits)) if v else "0")
+
+    for rnd in range(ctx.n(4, 14)):
+        opts, order, last = [], {}, {}
+        for fn, fmts in E2E_TRIG_FMTS.items():
+            specs = [("arg%d" % (i + 1), i) for i in range(len(fmts) - 1)] + [("retval", len(fmts) - 1)]
+            r.shuffle(specs)
+            specs = [x for x in specs if r.random() < 0.9]
+            # once more, with another format, for some
+            again = [x for x in specs if len(fmts[x[1]]) > 1 and r.random() < 0.3]
+            items = [(x, fmts[x[1]][0]) for x in specs] + [(x, r.choice(fmts[x[1]])) for x in again]
+            if rnd == 0 and fn == "lookup":
+                items = [(("arg1", 0), "i32"), (("arg2", 1), "s"), (("arg3", 2), "i64")]       # the split of seed C09-8
+            t_items = [it for n_, it in enumerate(items) if (r.random() < 0.5 if not (rnd == 0 and fn == "lookup") else n_ == 0)]
+            o_items = [it for it in items if it not in t_items]
+            if t_items:
+                # one action, or one action per spec
+                if r.random() < 0.5:
+                    opts.append(("T", fn, t_items))
+                else:
+                    opts += [("T", fn, [it]) for it in t_items]
+            a_items = [it for it in o_items if it[0][0] != "retval"]
+            r_items = [it for it in o_items if it[0][0] == "retval"]
+            if a_items:
+                opts.append(("A", fn, a_items))
+            if r_items:
+                opts.append(("R", fn, r_items))
+        if rnd != 0:
+            r.shuffle(opts)
+        cmd = []
+        for o, fn, items in opts:
+            cmd += ["-" + o, "%s@%s" % (fn, ",".join("%s/%s" % (x[0], f) for x, f in items))]
+        # libmcount's list per function: options in the order -T, -A, -R
+        for o_ in "TAR":
+            for o, fn, items in opts:
+                if o != o_:
+                    continue
+                for x, f in items:
+                    order.setdefault(fn, [])
+                    if x not in order[fn]:
+                        order[fn].append(x)
+                    last[(fn, x)] = f
+        data = os.path.join(d, "data%d" % rnd)
+        p = subprocess.run(["timeout", "60", uft, "record", "--no-pager", "--no-event", "--no-libcall",
+                            "--libmcount-path=" + impl.objdir] + cmd + ["-d", data, exe], capture_output=True, timeout=90, cwd=d)
+        ctx.case(key=("e2e-trigger", tuple(cmd)), tags=["e2e:trigger-split"])
+        m = re.search(rb"PTR (\S+) (\S+) (\S+)", p.stdout)
+        problem = None
+        if p.returncode != 0 or not m or b"sum " not in p.stdout:
+            problem = "the traced program does not run to its end: rc=%d stdout=%r stderr=%r" % (
+                p.returncode, p.stdout[-200:], p.stderr[-300:])
+        else:
+            ptrs = [int(x, 16) for x in m.groups()]
+            want = []
+            for fn, args, ret in E2E_TRIG_CALLS:
+                xs = order.get(fn, [])
+                a = ", ".join(fmt_val(args[x[1]], last[(fn, x)], ptrs) for x in xs if x[0] != "retval")
+                rv = [x for x in xs if x[0] == "retval"]
+                want.append("%s(%s)%s;" % (fn, a, " = " + fmt_val(ret, last[(fn, rv[0])], ptrs) if rv else ""))
+            rp = subprocess.run(["timeout", "60", uft, "replay", "--no-pager", "-f", "none", "--no-comment", "-d", data],
+                                capture_output=True, timeout=90)
+            got = [l.strip() for l in rp.stdout.decode("latin-1").split("\n")
+                   if re.match(r"\s*(lookup|after|name_of|half)\(", l)]
+            dp = subprocess.run(["timeout", "60", uft, "dump", "--no-pager", "-d", data], capture_output=True, timeout=90)
+            if got != want:
+                problem = "replay shows %r, the calls were %r (info file: %s)" % (
+                    got, want, [l for l in open(os.path.join(data, "info"), errors="replace").read().split("\n") if "spec:" in l])
+            elif rp.returncode != 0 or dp.returncode != 0 or b"invalid rstack" in rp.stderr + dp.stderr:
+                problem = "the records behind a payload are not decoded: replay rc=%d %r, dump rc=%d %r" % (
+                    rp.returncode, rp.stderr[-200:], dp.returncode, dp.stderr[-200:])
+        if problem:
+            ctx.violation("C09 violated end to end (specs of one function split between -T and -A/-R): " + problem,
+                          {"mode": "e2e-trigger", "program": E2E_TRIG_PROG, "record_options": cmd}, True)
+            break
+
+
 E2E_WITNESSES = [
     ("autoargs-complex",
      {"name": "g1", "types": ["double _Complex", "const char *", "signed char"], "rtype": "void",
@@ -2433,6 +2682,7 @@ def run(ctx):
     verdict(ctx, batches, res)
     e2e_pointers(ctx, impl)
     e2e_abandoned(ctx, impl)
+    e2e_trigger_split(ctx, impl)
     found = e2e(ctx, impl)
     defect_witnesses(ctx, impl, found)
 
